@@ -10,7 +10,8 @@ reg(Prop(
              parts=16, run_tier='quick', alarm=900)],
     rule='Cases: chunks of values for io::write->bytes->io::read (+ byte order by shifting, endianness::swap twice, convert twice, convert '
          'vs byte reversal) over all 8/16-bit integers, the 32/64-bit lattice + seeded random values, float/double incl. +-0, denormals, inf and '
-         'arbitrary bit patterns (bit comparison); output_to_std_(w)string -> extract_from_string for signed/unsigned char..unsigned long long '
+         'arbitrary bit patterns (bit comparison); io::read from every short prefix, from a stream with failbit / badbit set before the call and from '
+         'a device that throws after k < sizeof(T) bytes must yield nothing; output_to_std_(w)string -> extract_from_string for signed/unsigned char..unsigned long long '
          '(char types: same value or nothing) and malformed texts; enum to_string/from_string/names/output/input on narrow and wide streams for '
          'every enumerator of 3 enums plus non-names; vector/dim << and >> for all vectors over {-2..2}^N, N=1..3, plus malformed texts; '
          'narrow/widen(_locale), to/from_std_wstring(_locale) in C.utf8 for every Unicode scalar value U+0001..U+10FFFF singly, with ASCII '
